@@ -436,12 +436,27 @@ class FetchAtt:
     ####################################################################
     #
     def _body(
-        self, msg: Message | EmailMessage, section: None | list[int | str]
+        self,
+        msg: Message | EmailMessage,
+        section: None | list[int | str],
+        top: bool = True,
     ) -> bytes:
         if not section:
             return msg_as_bytes(msg)
 
         if len(section) == 1:
+            # The renderer ends whatever it renders with a line break. The
+            # TEXT of the whole message is what follows the header in
+            # BODY[] though: if the message has no body, that is nothing.
+            #
+            if (
+                top
+                and isinstance(section[0], str)
+                and section[0].upper() == "TEXT"
+                and not msg.is_multipart()
+                and not msg.get_payload()
+            ):
+                return b""
             return self._single_section(msg, section[0])
 
         if isinstance(section[0], int):
@@ -460,7 +475,7 @@ class FetchAtt:
             try:
                 bp = msg.get_payload(section[0] - 1)
                 assert isinstance(bp, Message)
-                return self._body(bp, section[1:])
+                return self._body(bp, section[1:], top=False)
             except (TypeError, IndexError) as err:
                 raise BadSection(
                     f"Message does not contain subsection {section[0]} "
